@@ -16,4 +16,6 @@ def run(chk):
         hobl.c07_suspend_kind(chk, ex)
     X.suspend_decision(chk, "C07")
     X.on_task_complete(chk, "C07", want=("C07",))
+    X.timer_loop(chk, "C07")
+    X.resubmitter_total(chk, "C07")
     wrapper_contracts.wrapper_obligations(chk, "C07", want=("C07",))
